@@ -21,6 +21,29 @@ var Faults = []Fault{
 	{Name: "none", Benign: true},
 	{Name: "body-bit-flipped", Post: func(w *World) { w.Raw[48+100] ^= 0x04 }, MinLevel: LvlBase},
 	{Name: "qe-report-bit-flipped", Post: func(w *World) { w.Raw[770+130] ^= 0x01 }, MinLevel: LvlBase},
+	{Name: "attestation-key-replaced-and-body-resigned", Post: func(w *World) {
+		// breaks only the hash binding between the QE report and the attestation key
+		q := w.Q.Clone()
+		k := DeriveKey("fault/other-att-key")
+		copy(q.AttKey[:], k.PubRaw())
+		SignBody(q, k)
+		w.Raw = q.Encode()
+	}, MinLevel: LvlBase},
+	{Name: "auth-data-bit-flipped", Post: func(w *World) {
+		q := w.Q.Clone()
+		if len(q.Auth) == 0 {
+			q.Auth = []byte{1}
+			q.FixSizes()
+		} else {
+			q.Auth[len(q.Auth)/2] ^= 0x08
+		}
+		w.Raw = q.Encode()
+	}, MinLevel: LvlBase},
+	{Name: "qe-report-resigned-by-foreign-key", Post: func(w *World) {
+		q := w.Q.Clone()
+		SignQe(q, DeriveKey("fault/foreign-pck"))
+		w.Raw = q.Encode()
+	}, MinLevel: LvlBase},
 	{Name: "leaf-expired", Pre: func(w *World) {
 		w.LeafSpec.W = Window{Wide.NotBefore, w.Times.PckCertChain.Add(-time.Hour)}
 	}, MinLevel: LvlBase},
